@@ -397,8 +397,83 @@ def gen_case(rng):
     return {"nodes": n, "validate": validate, "ops": ops}
 
 
+def gen_engine_case(rng):
+    """one cesium engine on a memory FS: create / batch delete / single delete / rename / reopen on the same FS"""
+    eops = []
+    nxt = [1]
+    live = {}   # key -> kind
+
+    def fresh():
+        nxt[0] += 1
+        return nxt[0] - 1
+
+    def chan(kind, index=0):
+        k = fresh()
+        nm = "%s%d" % (kind[0], k)
+        if kind == "index":
+            return {"key": k, "name": nm, "dt": "timestamp", "is_index": True, "index": rng.choice([0, k]), "virtual": False}
+        if kind == "virtual":
+            return {"key": k, "name": nm, "dt": rng.choice(["float64", "json"]), "is_index": False, "index": 0, "virtual": True}
+        return {"key": k, "name": nm, "dt": rng.choice(["float64", "string"]), "is_index": False, "index": index, "virtual": False}
+
+    for _ in range(rng.randrange(5, 13)):
+        x = rng.random()
+        idxs = [k for k, kd in live.items() if kd == "index"]
+        if x < 0.4 or not live:
+            chs = []
+            for _ in range(rng.choice([1, 2, 3])):
+                kind = rng.choice(["index", "data", "data", "virtual", "virtual"])
+                if kind == "data":
+                    if not idxs and not any(c["is_index"] for c in chs):
+                        kind = "index"
+                    else:
+                        pool = idxs + [c["key"] for c in chs if c["is_index"]]
+                        ix = rng.choice(pool) if rng.random() < 0.9 else rng.choice([0, 99] + list(live))
+                        chs.append(chan("data", ix))
+                        continue
+                chs.append(chan(kind))
+            if rng.random() < 0.08:
+                c = rng.choice(chs)
+                y = rng.randrange(3)
+                if y == 0:
+                    c["dt"] = ""
+                elif y == 1:
+                    c["name"] = ""
+                else:
+                    c["virtual"], c["index"] = True, 5
+            eops.append({"op": "create", "chans": chs})
+            for c in chs:
+                live[c["key"]] = "index" if c["is_index"] else "virtual" if c["virtual"] else "data"
+        elif x < 0.62:
+            ks = rng.sample(list(live), min(len(live), rng.choice([1, 2, 3])))
+            if rng.random() < 0.4:
+                vs = [k for k, kd in live.items() if kd == "virtual"]
+                if vs:
+                    ks.append(rng.choice(vs))
+            if rng.random() < 0.1:
+                ks.append(rng.choice([77, ks[0]]))
+            eops.append({"op": "delete", "keys": ks})
+            for k in ks:
+                live.pop(k, None)
+            if rng.random() < 0.6:
+                eops.append({"op": "reopen"})
+        elif x < 0.72:
+            k = rng.choice(list(live) + [88])
+            eops.append({"op": "delete1", "keys": [k]})
+            live.pop(k, None)
+        elif x < 0.84:
+            ks = rng.sample(list(live), min(len(live), rng.choice([1, 2])))
+            if rng.random() < 0.1:
+                ks.append(66)
+            eops.append({"op": "rename", "keys": ks, "names": [rng.choice(["n%d" % k, "n%d" % k, ""]) if rng.random() < 0.1 else "n%d" % k for k in ks]})
+        else:
+            eops.append({"op": "reopen"})
+    eops.append({"op": "reopen"})
+    return {"kind": "engine", "eops": eops, "nodes": 0, "validate": False, "ops": []}
+
+
 def gen_cases(rng, tier, n):
-    return [gen_case(rng) for _ in range(n)]
+    return [gen_engine_case(rng) if i % 8 == 7 else gen_case(rng) for i in range(n)]
 
 
 # --------------------------------------------------------------------------- Coq printing
@@ -463,6 +538,12 @@ def _kinds_ok(st):
 def harness_violation(case, r):
     if r.get("panic"):
         return "panic: " + r["panic"]
+    if case.get("kind") == "engine":
+        for st in r.get("esteps") or []:
+            for e in st["eng"]:
+                if e["kind"] not in ("unary", "virtual") or (e["kind"] == "virtual") != bool(e["virtual"]):
+                    return "engine channel %s sits in the %s map with virtual=%s" % (e["key"], e["kind"], e["virtual"])
+        return None
     for i, st in enumerate([r["base"]] + (r.get("steps") or [])):
         w = _kinds_ok(st)
         if w:
@@ -470,7 +551,25 @@ def harness_violation(case, r):
     return None
 
 
+def c_eop(o):
+    k = o["op"]
+    if k == "create":
+        return "(ECreate %s)" % clist([cpair(cN(c["key"]), cpair(cstr(c["name"]), cN(DT.get(c["dt"], 99)), cbool(c["is_index"]),
+                                                         cN(c["index"]), cbool(c["virtual"]))) for c in o["chans"]])
+    if k == "delete":
+        return "(EDelete %s)" % clist([cN(x) for x in o["keys"]])
+    if k == "delete1":
+        return "(EDelete1 %s)" % cN(o["keys"][0])
+    if k == "rename":
+        return "(ERename %s)" % clist([cpair(cN(a), cstr(b)) for a, b in zip(o["keys"], o["names"])])
+    return "EReopen"
+
+
 def to_coq(case, r):
+    if case.get("kind") == "engine":
+        steps = [cpair(c_eop(o), ERR.get(st["err"], "EUnreachable"), clist([c_echan(e) for e in st["eng"]]))
+                 for o, st in zip(case["eops"], r["esteps"])]
+        return "(CEngine %s)" % clist(steps)
     if r.get("unsettled") or not r["base"].get("agree", True):
         # some node never received a metadata update (aspen gossip, property C06): nothing to compare
         return None
@@ -478,10 +577,13 @@ def to_coq(case, r):
     for o, st in zip(case["ops"], r["steps"]):
         ret = clist([c_keyed(c) for c in (st.get("ret") or [])])
         steps.append(cpair(c_op(o, st), ERR.get(st["err"], "EUnreachable"), ret, c_obs(st)))
-    return cpair(cbool(case["validate"]), c_obs(r["base"]), clist(steps))
+    return "(CCluster %s)" % cpair(cbool(case["validate"]), c_obs(r["base"]), clist(steps))
 
 
 def nontrivial(case, r):
+    if case.get("kind") == "engine":
+        ok_del = any(o["op"] in ("delete", "delete1") and not st["err"] for o, st in zip(case["eops"], r["esteps"]))
+        return ok_del and sum(1 for o in case["eops"] if o["op"] == "reopen") >= 2
     if r.get("unsettled"):
         return False
     ok_creates = set()
@@ -499,6 +601,8 @@ def nontrivial(case, r):
 
 
 def histogram(case, r):
+    if case.get("kind") == "engine":
+        return ["kind=engine"] + ["eop=%s/%s" % (o["op"], st["err"] or "ok") for o, st in zip(case["eops"], r.get("esteps") or [])]
     ks = ["nodes=%d" % case["nodes"], "validate=%s" % case["validate"]]
     if r.get("unsettled"):
         return ks + ["unsettled_case(gossip did not reach every node within 3 s; skipped)"]
@@ -521,6 +625,12 @@ def histogram(case, r):
 
 def neighbours(case, rng):
     out = []
+    if case.get("kind") == "engine":
+        for i in range(len(case["eops"])):
+            c = json.loads(json.dumps(case))
+            del c["eops"][i]
+            out.append(c)
+        return out
     for i in range(len(case["ops"])):
         c = json.loads(json.dumps(case))
         del c["ops"][i]
@@ -612,7 +722,7 @@ def _engines(st):
 def tags(case, r):
     """tags of known findings — returned only if EVERY clause the monitor rejects in this case is explained by
     one of them; anything unexplained yields the empty set so that it is reported as a violation."""
-    if not r or r.get("panic") or r.get("unsettled") or not r.get("steps"):
+    if case.get("kind") == "engine" or not r or r.get("panic") or r.get("unsettled") or not r.get("steps"):
         return set()
     try:
         why = _why(case, r)
